@@ -11,7 +11,7 @@ from vf.core import Ctx, HarnessError, Violation, require, sut
 META = {
     "rule": "three sub-checks. (1) 'length': ttp.Instance objects built "
             "through the public constructor from generated distance "
-            "matrices (n in {4,6,8,10}, rounds 1..3, symmetric and "
+            "matrices (n in {2,4,6,8,10}, rounds 1..3, symmetric and "
             "asymmetric, zero distances between different teams, 8 value "
             "classes from 0..3 up to 10^12 and next to the int8/int16/int32 "
             "storage-type edges), generated team names and constraint "
